@@ -111,7 +111,7 @@ def at_scale_case(ctx, g, rng):
 
 
 def run_case(ctx, g, rng):
-    if g % 127 == 127 - 1:
+    if g % (127 if ctx.tier == "quick" else 1021) == 126:
         return at_scale_case(ctx, g, rng)
     api, S = ctx.api, probe.S
     # inputs with a past: constructed, registered record by record, or grown through merges (DESIGN 11.4)
